@@ -370,6 +370,158 @@ func c19GenFaultSweep(r *Rng) c19Scn {
 	return c19Scn{MaxC: 1, Steps: steps}
 }
 
+// c19OwnerParts: a Usage of used by using; the using resource is replaced (deleted and
+// re-created under the same name: new uid) or the Usage is seeded with an owner reference that
+// has the using resource's name and another uid. variant:
+//
+//	0 plain:    Usage by a plain resource, reconciled (ready, owned by uid 1), then the user is replaced
+//	1 composed: the same with an XR controller reference as FIRST owner of the Usage
+//	2 seeded:   spec.by is the XR the Usage was created under (its controller reference carries the
+//	            right apiVersion/kind/name); the XR is replaced before the Usage is ever reconciled
+func c19OwnerParts(variant int, byAV string, bySel bool, usedAV string) (prefix []c19Step, replace []c19Step, used, using c19ResID) {
+	used = c19ResID{"ex.org/v1", "Thing", "r0"}
+	using = c19ResID{"ex.org/v1", "Other", "r1"}
+	if variant == 2 {
+		using = c19ResID{c19XRAV, c19XRKind, "x0"}
+	}
+	prefix = []c19Step{{Op: "cr", AV: c19XRAV, Kind: c19XRKind, Name: "x0", Labels: map[string]string{"app": "web"}}}
+	prefix = append(prefix, c19Step{Op: "cr", AV: used.AV, Kind: used.Kind, Name: used.Name, Labels: map[string]string{"app": "db"}})
+	crUsing := c19Step{Op: "cr", AV: using.AV, Kind: using.Kind, Name: using.Name, Labels: map[string]string{"app": "web"}}
+	if variant != 2 {
+		prefix = append(prefix, crUsing)
+	}
+	by := &c19RSpec{AV: byAV, Kind: using.Kind, Name: using.Name}
+	if bySel && variant != 2 {
+		by = &c19RSpec{AV: byAV, Kind: using.Kind, Sel: &c19Sel{Labels: map[string]string{"app": "web"}}}
+	}
+	cu := c19Step{Op: "cu", Name: "u0", Of: &c19RSpec{AV: usedAV, Kind: used.Kind, Name: used.Name}, By: by}
+	switch variant {
+	case 1:
+		cu.Composed, cu.Ctrl = true, "x0"
+	case 2:
+		cu.Ctrl = "x0"
+	}
+	prefix = append(prefix, cu)
+	if variant != 2 {
+		prefix = append(prefix, c19Step{Op: "run", U: "u0"})
+	}
+	replace = []c19Step{{Op: "dr", AV: using.AV, Kind: using.Kind, Name: using.Name}, crUsing}
+	return prefix, replace, used, using
+}
+
+// c19GenOwner: ownership is by uid. The using resource is replaced while the Usage is ready
+// (before the garbage collector looks at the Usage), at a random point before or during the
+// next reconcile of the Usage; then GC steps, reconciles and delete requests for the used
+// resource in random order; finally the user is deleted for good and the used resource released.
+func c19GenOwner(r *Rng) c19Scn {
+	variant := Pick(r, []int{0, 0, 1, 1, 2})
+	byAV := "ex.org/v1"
+	if r.Chance(1, 4) {
+		byAV = Pick(r, c19Versions("ex.org/v1"))
+	}
+	prefix, replace, used, _ := c19OwnerParts(variant, byAV, r.Chance(1, 4), Pick(r, c19Versions("ex.org/v1")))
+	steps := append([]c19Step{}, prefix...)
+	gcU := c19Step{Op: "gc", Kind: v1beta1.UsageKind, Name: "u0"}
+	drUsed := func() c19Step {
+		return c19Step{Op: "dr", AV: Pick(r, c19Versions(used.AV)), Kind: used.Kind, Name: used.Name, Policy: Pick(r, []string{"", "Foreground", "Orphan"})}
+	}
+	if variant == 1 && r.Bool() {
+		steps = append(steps, c19Step{Op: "xa", Name: "u0", Ctrl: "x0"})
+	}
+	switch r.Intn(4) {
+	case 0, 1:
+		// replaced between two reconciles
+		steps = append(steps, replace...)
+		if r.Chance(1, 3) {
+			steps = append(steps, c19Step{Op: "start", U: "u0"})
+			for i, n := 0, r.Range(1, 4); i < n; i++ {
+				steps = append(steps, c19Step{Op: "step", U: "u0", O: "ok"})
+			}
+		}
+		steps = append(steps, c19Step{Op: "run", U: "u0"})
+	case 2:
+		// replaced in the middle of a reconcile (possibly between its GET of the user and its write)
+		k := r.Intn(9)
+		steps = append(steps, c19Step{Op: "start", U: "u0"})
+		for i := 0; i < k; i++ {
+			steps = append(steps, c19Step{Op: "step", U: "u0", O: "ok"})
+		}
+		if r.Bool() {
+			steps = append(steps, replace...)
+		} else {
+			steps = append(steps, replace[0], c19Step{Op: "step", U: "u0", O: "ok"}, replace[1])
+		}
+		steps = append(steps, c19Step{Op: "run", U: "u0"})
+		if r.Bool() {
+			steps = append(steps, c19Step{Op: "run", U: "u0"})
+		}
+	default:
+		// the garbage collector is faster than the controller: the Usage is collected (rightly)
+		steps = append(steps, replace...)
+		steps = append(steps, gcU, c19Step{Op: "run", U: "u0"})
+	}
+	// now: GC, polls, delete requests, composer in random order
+	tail := []c19Step{gcU, drUsed(), {Op: "run", U: "u0"}}
+	if r.Bool() {
+		tail = append(tail, gcU, drUsed())
+	}
+	if variant == 1 {
+		tail = append(tail, c19Step{Op: "xa", Name: "u0", Ctrl: "x0"})
+	}
+	for _, i := range r.Perm(len(tail)) {
+		steps = append(steps, tail[i])
+	}
+	steps = append(steps, gcU, c19Step{Op: "run", U: "u0"}, drUsed())
+	// the user goes away for good: the used resource is released
+	steps = append(steps, replace[0], gcU, c19Step{Op: "run", U: "u0"}, drUsed())
+	return c19Scn{MaxC: Pick(r, []int{1, 1, 2}), Steps: steps}
+}
+
+// c19OwnerExhaustive: for each variant, the replacement of the using resource at every position
+// of the following reconcile's call sequence (as one step or split around one call), followed by
+// GC, a poll, GC and a delete request for the used resource.
+func c19OwnerExhaustive(emit func(c19Scn, string)) {
+	for variant := 0; variant < 3; variant++ {
+		for _, bySel := range []bool{false, true} {
+			if bySel && variant == 2 {
+				continue
+			}
+			for k := 0; k <= 9; k++ {
+				for _, split := range []bool{false, true} {
+					for _, gcFirst := range []bool{false, true} {
+						prefix, replace, used, _ := c19OwnerParts(variant, "ex.org/v1", bySel, "ex.org/v1beta1")
+						steps := append([]c19Step{}, prefix...)
+						if gcFirst {
+							steps = append(steps, c19Step{Op: "gc", Kind: v1beta1.UsageKind, Name: "u0"})
+						}
+						steps = append(steps, c19Step{Op: "start", U: "u0"})
+						for i := 0; i < k; i++ {
+							steps = append(steps, c19Step{Op: "step", U: "u0", O: "ok"})
+						}
+						if split {
+							steps = append(steps, replace[0], c19Step{Op: "step", U: "u0", O: "ok"}, replace[1])
+						} else {
+							steps = append(steps, replace...)
+						}
+						steps = append(steps,
+							c19Step{Op: "run", U: "u0"},
+							c19Step{Op: "gc", Kind: v1beta1.UsageKind, Name: "u0"},
+							c19Step{Op: "run", U: "u0"},
+							c19Step{Op: "gc", Kind: v1beta1.UsageKind, Name: "u0"},
+							c19Step{Op: "run", U: "u0"},
+							c19Step{Op: "dr", AV: "ex.org/v2", Kind: used.Kind, Name: used.Name, Policy: "Foreground"},
+							replace[0],
+							c19Step{Op: "gc", Kind: v1beta1.UsageKind, Name: "u0"},
+							c19Step{Op: "run", U: "u0"},
+							c19Step{Op: "dr", AV: used.AV, Kind: used.Kind, Name: used.Name})
+						emit(c19Scn{MaxC: 1, Steps: steps}, "xown")
+					}
+				}
+			}
+		}
+	}
+}
+
 // c19AllMerges enumerates every interleaving of two event streams.
 func c19AllMerges(a, b []c19Step, emit func([]c19Step)) {
 	var rec func(i, j int, acc []c19Step)
@@ -460,11 +612,22 @@ func c19Exhaustive(emit func(c19Scn, string)) {
 func c19Class(scn c19Scn, obs c19Obs, fam string) string {
 	f := map[string]bool{}
 	ofs := map[string]int{}
+	created, bys := map[string]int{}, map[string]bool{}
+	for _, s := range scn.Steps {
+		if s.Op == "cu" && s.By != nil && s.By.Name != "" {
+			bys[c19ResKey(c19Group(s.By.AV), s.By.Kind, s.By.Name)] = true
+		}
+	}
 	for _, s := range scn.Steps {
 		switch s.Op {
 		case "cr":
 			if s.Name == "" {
 				f["bad"] = true
+			}
+			k := c19ResKey(c19Group(s.AV), s.Kind, s.Name)
+			created[k]++
+			if created[k] > 1 && bys[k] {
+				f["repl"] = true // a resource some Usage names as its user is created again (new uid)
 			}
 		case "cu":
 			if s.Of == nil || s.Name == "" || strings.Count(s.Of.AV, "/") > 1 || (s.Of.Name == "" && s.Of.Sel == nil) {
@@ -531,6 +694,12 @@ func c19Class(scn c19Scn, obs c19Obs, fam string) string {
 		if strings.Contains(r, "done:wait") {
 			f["wait"] = true
 		}
+		if r == "gc:ok" {
+			f["gcd"] = true // the garbage collector deleted a Usage
+		}
+		if r == "gc:owned" {
+			f["gco"] = true
+		}
 		if strings.Contains(r, "conflict") {
 			f["cfl"] = true
 		}
@@ -566,18 +735,27 @@ func init() {
 				}
 				idx++
 			})
+			c19OwnerExhaustive(func(s c19Scn, fam string) {
+				if idx%8 == shard%8 {
+					obs, mons := c19Run(s)
+					c.Emit(s, obs, mons, c19Class(s, obs, fam))
+				}
+				idx++
+			})
 		}
 		for i := 0; i < c.N; i++ {
 			r := c.Rng.Fork()
 			var s c19Scn
 			fam := "rnd"
-			switch w := r.Intn(10); {
+			switch w := r.Intn(12); {
 			case w < 5:
 				s = c19GenRandom(r)
 			case w < 8:
 				s, fam = c19GenMerge(r), "mrg"
-			default:
+			case w < 10:
 				s, fam = c19GenFaultSweep(r), "flt"
+			default:
+				s, fam = c19GenOwner(r), "own"
 			}
 			obs, mons := c19Run(s)
 			c.Emit(s, obs, mons, c19Class(s, obs, fam))
